@@ -134,7 +134,7 @@ theorem C03_branch {fs : Files} {lines : List Str} {a : Assembly} (h : assemble 
   have hrow : s.row = s4.row := by obtain ⟨v, rfl⟩ := hsame; rfl
   have hsize : s.pkg.size = s4.pkg.size := by obtain ⟨v, rfl⟩ := hsame; rfl
   have hsum : ∀ lo hi, sumSize st.ss4 lo hi = sumSize a.stmts lo hi := fun lo hi =>
-    (sumSize_congr ((fixAll_pw st.hfix).mono (by rintro u u' ⟨_, rfl⟩; rfl)) lo hi).symm
+    (sumSize_congr ((fixAllL_pw st.hfix).mono (by rintro u u' ⟨_, rfl⟩; rfl)) lo hi).symm
   have hndiag : fixOne st.ss4 i s4 ≠ .diag := by rw [hfix]; simp
   -- `fitWidth` leaves the field `fixOne` stored as it is
   have key : ∀ d, d < 16 ^ (if s4.row.isShortBranch then 2 else 4) →
@@ -256,12 +256,21 @@ theorem C03_pcr {fs : Files} {lines : List Str} {a : Assembly} (h : assemble fs 
         ∃ u x y v, a.stmts[t]? = some u ∧ addrNat s = some x ∧ addrNat u = some y ∧
           numericOfInt (pcrJump s y x) (some s.pcrHint) .none = .ok v ∧ fitWidth (withAdditional s v) = .ok s := by
   obtain ⟨st⟩ := assemble_stages h
-  refine ⟨st.ss4, fixAll_pw st.hfix, ?_⟩
+  refine ⟨st.ss4, fixAllL_pw st.hfix, ?_⟩
   intro i t s4 s hs4 hs hn hc hk hv1 hv2 hv3 he ht
-  obtain ⟨s1, s', hs', hfix, hfit⟩ := (fixAll_ok2 st.hfix).2 i s4 hs4
+  -- (batch 8) the statements after `fixAll`; the pass over the FCB / FDB lists leaves a numeric field alone
+  obtain ⟨x5, hx5, hl5⟩ := st.fix_split
+  obtain ⟨s1, sw, hsw, hfix, hfit⟩ := (fixAll_ok2 hx5).2 i s4 hs4
+  obtain ⟨s', hs', hlist⟩ := (evalLists_ok hl5).2 i sw hsw
   rw [hs] at hs'; cases hs'
   rw [Nat.zero_add] at hfix
   obtain ⟨r, start, v, h1, h2, h3, h4⟩ := fixOne_pcr hk hv1 hv2 hv3 hn hc hfix
+  have hsws : s = sw := by
+    have hnum : sw.pkg.additional.isNumeric = true :=
+      fitWidth_isNumeric hfit (by rw [h4]; exact EL.numericOfInt_isNumeric h3)
+    rw [evalList1_numeric _ _ hnum] at hlist
+    exact (Outcome.ok.inj hlist).symm
+  subst hsws
   rw [fixRel_plain he ht] at h1
   -- the target statement
   cases hat : addrIntOf st.ss4 t with
@@ -274,9 +283,9 @@ theorem C03_pcr {fs : Files} {lines : List Str} {a : Assembly} (h : assemble fs 
     | some u4 =>
       rw [hu4] at hat
       rw [hs4] at h2
-      obtain ⟨u, hu, w, rfl⟩ := (fixAll_pw st.hfix).get hu4
+      obtain ⟨u, hu, w, rfl⟩ := (fixAllL_pw st.hfix).get hu4
       subst h4
-      obtain ⟨w', hw'⟩ := (fixAll_pw st.hfix).2 i s4 s hs4 hs
+      obtain ⟨w', hw'⟩ := (fixAllL_pw st.hfix).2 i s4 s hs4 hs
       have hwa : withAdditional s v = withAdditional s4 v := by rw [hw']; rfl
       have e1 : addrNat s = some start := by rw [hw']; exact h2
       have e2 : pcrJump s r start = pcrJump s4 r start := by rw [hw']; rfl
